@@ -81,6 +81,10 @@ def ob_state(ctx):
                 primed.append(C)
         got = K._get_regex()
         ctx.observe("pattern", pattern_text(got))
+        if pattern_text(got) is None:
+            # the pattern object cannot be introspected (refactored): the content obligations carry the property
+            ctx.checked()
+            return True
         ctx.require(pattern_text(got) == K.structure(), "class-uses-another-class's-pattern")
         for C in primed:
             own = C.__dict__.get("_regex")
@@ -199,7 +203,8 @@ def ob_foreign(ctx):
         k = K(rec)
         vk = k.is_valid()
         ctx.observe("valid", vk)
-        ctx.require(pattern_text(K._get_regex()) == K.structure(), "class-uses-another-class's-pattern")
+        if pattern_text(K._get_regex()) is not None:
+            ctx.require(pattern_text(K._get_regex()) == K.structure(), "class-uses-another-class's-pattern")
         sig = getattr(K, "signature", NotImplemented)
         base = st.parts.AbstractPart.structure
         if sig is not NotImplemented and getattr(K.structure, "__func__", None) is getattr(base, "__func__", base):
@@ -210,6 +215,40 @@ def ob_foreign(ctx):
         ctx.witness("accepted" if vk else "rejected")
     finally:
         clear(allc)
+    return True
+
+
+def ob_instances(ctx):
+    """typing a record while another typed entity of the same class (same letters, other topology / other object) is
+    alive gives the answer an independent twin class gives"""
+    st = ctx.stack
+    P = ctx.P
+    n = P["n"]
+    K = kit_class(st, P["kit"], P["cls"])
+    key = (st.kind, "twin", P["kit"], P["cls"])
+    if key not in _DYN:
+        _DYN[key] = type(str("Twin_" + P["cls"]), (K,), {})
+    Twin = _DYN[key]
+    r = ctx.mk.seq("r", n, "ACGT")
+    circ = st.record.CircularRecord(st.Seq(r), id="circ")
+    lin = st.SeqRecord(st.Seq(r), id="lin", annotations={"topology": "linear"})
+    order = [circ, lin] if P["first"] == "circular" else [lin, circ]
+    alive = []
+    for rec in order:
+        e = K(rec)
+        alive.append(e)
+        v = e.is_valid()
+        t = Twin(rec)
+        vt = t.is_valid()
+        ctx.observe("valid", [v, vt])
+        ctx.require(v == vt, "verdict-depends-on-an-earlier-entity")
+        if v:
+            ctx.require(seq_eq(e.overhang_start(), t.overhang_start()) and True, "overhang-depends-on-an-earlier-entity")
+            if rec is circ:  # fragment extraction is only defined for circular records (`<<`); linear ones are outside
+                ctx.require(seq_eq(e.target_sequence().seq, t.target_sequence().seq), "target-depends-on-an-earlier-entity")
+            ctx.witness("accepted-" + ("circular" if rec is circ else "linear"))
+    again = K(order[0])
+    ctx.require(again.is_valid() == alive[0].is_valid(), "same-record-typed-twice-differs")
     return True
 
 
@@ -233,6 +272,12 @@ def obligations(tier, seed):
     for f in foreign:
         nm = "same-named user classes" if f["pair"] == "same-name" else "%s.%s after %s.%s" % (f["kit"], f["cls"], f["xkit"], f["x"])
         obs.append(Ob("foreign priming: " + nm, ob_foreign, dict(f, n=25), samples=4, cost=25 ** 3, group="foreign"))
+    for kit, name in ([("ytk", "YTKPart1")] if tier == "quick" else [("ytk", "YTKPart1"), ("ytk", "YTKEntry"), ("cidar", "CIDARCassetteVector")]):
+        F = fixed_letters(kit_class(st, kit, name).structure())
+        for first in ("circular", "linear"):
+            obs.append(Ob("instances %s.%s n=%d typed %s first" % (kit, name, F + 1, first), ob_instances,
+                          dict(kit=kit, cls=name, n=F + 1, first=first), samples=4, cost=3 * (F + 1) ** 3, group="instances",
+                          expect_witness=("accepted-circular",)))
     ps = pairs(st)
     if tier == "quick":
         seen, pick = set(), []
